@@ -3,7 +3,9 @@ package verifrt
 import (
 	"fmt"
 	"io"
+	"strings"
 	"testing"
+	"time"
 )
 
 func explore(t *testing.T, pb int, body func(res *[]string) func()) (Stats, map[string]int) {
@@ -247,5 +249,29 @@ func TestShardingPartitionsTheSearch(t *testing.T) {
 				}
 			}
 		}
+	}
+}
+
+// A thread that waits on something the scheduler does not model must not hang the search:
+// the execution is reported stuck and the process refuses further controlled executions.
+// (Runs last in the file: it poisons the process.)
+func TestZZStuckExecutionIsReported(t *testing.T) {
+	old := stuckAfter
+	stuckAfter = 300 * time.Millisecond
+	defer func() { stuckAfter = old }()
+	never := make(chan struct{})
+	st := Explore(Options{PreemptBound: 1}, func() (func(), func(*Exec)) {
+		return func() {
+				GoNamed("a", func() { P("a1"); <-never })
+				P("m1")
+			}, func(x *Exec) {
+				t.Errorf("oracle called for a stuck execution")
+			}
+	})
+	if st.Stuck != 1 || !st.Stopped || !Poisoned() {
+		t.Fatalf("stats %+v poisoned=%v", st, Poisoned())
+	}
+	if !strings.Contains(st.StuckDump, "goroutine") {
+		t.Fatalf("no dump")
 	}
 }
